@@ -29,26 +29,32 @@ TRUSTED = ["SortFootnotes.apply, UnreferencedFootnotesDetector.apply, CollectFoo
            "gen/c11_transforms.py (priorities and get_transforms lists -> coq/Gen/Transforms.v)",
            "docutils Transformer applies transforms sorted by (priority, insertion order)",
            "the Markdown parser (markdown-it footnote plugin) turns [^l] / [^l]: into footnote_ref / footnote_reference tokens in document order"]
-ORACLES = {"O_footnotes_xform": "(round 4: the transform is also TRANSLATED from the installed docutils source on every run, Gen/DocutilsFootSrc.v; number_footnotes proved equal to the transcription - C11_docutils_number_src_partial -, the whole translated apply run extracted beside the transcription on every enumerated registry) docutils.transforms.references.Footnotes (number_footnotes, number_footnote_references, resolve_footnotes_and_citations) and document.note_*: transcribed in Foot.v (docutils_footnotes); validated on its own by corr_docutils_only (the real transform applied to hand-built docutils documents: extra registered names x orders of auto-numbered footnotes x manual footnotes x reference sequences, exhaustively for small sizes) and exercised by every pipeline case",
+ORACLES = {"O_footnotes_xform": "(final: DISCHARGED for the translated source - C11_docutils_footnotes_src proves footnotes_apply_src, generated from the installed docutils, equal to the transcription on every renderer-produced registry, and C11_all_src_is_run removes the premise; what is left to trust is the mapping coq/Refs/DocutilsOps.v) (round 4: the transform is also TRANSLATED from the installed docutils source on every run, Gen/DocutilsFootSrc.v; number_footnotes proved equal to the transcription - C11_docutils_number_src_partial -, the whole translated apply run extracted beside the transcription on every enumerated registry) docutils.transforms.references.Footnotes (number_footnotes, number_footnote_references, resolve_footnotes_and_citations) and document.note_*: transcribed in Foot.v (docutils_footnotes); validated on its own by corr_docutils_only (the real transform applied to hand-built docutils documents: extra registered names x orders of auto-numbered footnotes x manual footnotes x reference sequences, exhaustively for small sizes) and exercised by every pipeline case",
            "O_footnotes_xform_fx": "the same assumption under the name it has in coq/Refs/FootSrcProofs.v (Section SrcTheorems): fx s = docutils_footnotes s; exercised by corr_docutils_only and every pipeline case",
            "O_isdigit_int": "Python str.isdigit / int(): passed to the model as a table computed by Python for the labels of the case",
            "O_show": "str(int) = Base.PyStr.show (decimal); used for the numbers docutils assigns"}
 ASSUMPTIONS = ["dict iteration order = insertion order (CPython >= 3.7)",
                "list.sort / sorted are stable",
                "only footnote material registers names in the generated documents (no heading or target shares a label with a footnote)"]
-LEVEL_TEXT = ("Proof (Coq) over a Gallina transcription of the footnote pipeline (MyST renderer part + SortFootnotes + docutils Footnotes + "
-              "UnreferencedFootnotesDetector + CollectFootnotes, ordered by the regenerated priorities), for all arrangements and both settings: "
-              "references point at their definition with the same number and are back-linked (C11_refs_point_to_defs), displayed labels are "
-              "pairwise distinct (C11_labels_distinct), auto numbers follow first reference when sorting is on (C11_auto_order_partial, "
-              "C11_referenced_first_partial for any number of references - the 999 constant of the code before 0690b34 is refuted by C11_referenced_first_before_fix_refuted; refuted for sorting off: C11_auto_order_refuted, open finding), numeric labels keep their number "
-              "(C11_manual_keeps_number), collection from any nesting depth/ordering/transition (C11_collect_layout, C11_collect_sorted, C11_stay_put; the document is a rose tree), "
-              "duplicates and unreferenced definitions warn once (C11_dup_and_unreferenced), no definition text is lost (C11_no_text_lost), "
-              "transform order from the source (C11_transform_order), no fuel exhaustion (C11_total). Every run regenerates the Gallina "
-              "definitions of the three MyST transforms and the two renderer methods from the source and re-proves them equal to the model, so "
-              "C11_auto_order_partial_src, C11_referenced_first_src, C11_collect_sorted_src, C11_dup_and_unreferenced_src hold for the code as it is now.")
-LEVEL_NOTE = ("Partial: docutils' Footnotes transform and registries are modelled from the installed source (hypothesis-level trust, exercised by "
-              "every correspondence case), markdown-it's footnote tokenisation is an oracle; the theorems are about the model, tied to the code by "
-              "differential correspondence. Open finding: with footnote_sort=False auto numbers follow definition order.")
+LEVEL_TEXT = ("Proof (Coq), 30 theorems, all closed, over a Gallina model of the footnote pipeline (renderer methods + SortFootnotes + docutils "
+              "Footnotes + UnreferencedFootnotesDetector + CollectFootnotes, ordered by the regenerated priorities; documents are rose trees of "
+              "references / definitions / containers), for all arrangements and both settings: references point at their definition with the same "
+              "number and are back-linked (C11_refs_point_to_defs), labels pairwise distinct (C11_labels_distinct), auto numbers follow first "
+              "reference and referenced footnotes precede unreferenced ones when sorting is on (C11_auto_order_partial, C11_referenced_first_partial; "
+              "for sorting off refuted: C11_auto_order_refuted = the open finding), numeric labels keep their number, collection from any depth / "
+              "ascending order / transition rule (C11_collect_layout, C11_collect_sorted, C11_stay_put), one warning per duplicate / unreferenced "
+              "definition (C11_dup_and_unreferenced), no text lost (C11_no_text_lost), transform order from the source (C11_transform_order), totality "
+              "(C11_total). EVERY RUN regenerates the Gallina definitions from the sources and re-proves them equal to the model: the three MyST "
+              "transforms and the two renderer methods from transforms.py / base.py (C11_run_src_is_run, C11_render_src_is_model), docutils' Footnotes "
+              "transform from the INSTALLED docutils source (C11_docutils_footnotes_src: apply, number_footnotes, number_footnote_references, "
+              "resolve_* equal the transcription on every registry state the renderer produces) and the document.note_* registry methods "
+              "(C11_docutils_registry_methods_src); hence C11_all_src_is_run and the *_all_src theorems hold with no oracle premise.")
+LEVEL_NOTE = ("Remaining trust: the domain mappings (coq/Refs/FootOps.v, coq/Refs/DocutilsOps.v + the tables in gen/c11_src.py, gen/c11_docutils.py: "
+              "what node/registry operations mean on the model types; docutils statements matched by exact text; symbolize_footnotes locked by "
+              "source hash because MyST registers no symbol footnotes - C11_only_named_footnotes) and the statement walker; markdown-it's footnote "
+              "tokenisation (oracle); set_duplicate_name_id (dupnames) is not modelled - documents whose only names are footnote labels never reach "
+              "it; the mappings and these limits are exercised by the differential correspondence (docutils + Sphinx front ends, docutils-only "
+              "registries). Open finding: with footnote_sort=False auto numbers follow definition order.")
 
 KNOWN_SORT_OFF = {"kind": "arr", "arr": [["R", ["b"]], ["R", ["a"]], ["D", "a", []], ["D", "b", []]], "sort": False, "trans": True}
 
